@@ -406,6 +406,26 @@ class RefEval:
             return prim(f, vs)
         raise Stuck('unknown function ' + f)
 
+    def run_host(self, decls, host_calls):
+        """instantiate, then a history of host actions on the same runtime: ('call', fname) | ('reset',).
+        Returns (instantiation result dict, [per-call dump or 'viol:K'])"""
+        sys.setrecursionlimit(100000)
+        try:
+            env = self.eval_decls([d for d in decls if d[0] != 'raw'], [], None, 0)
+        except Violation as v:
+            return {'outcome': 'viol:' + v.kind}, []
+        outs = []
+        for h in host_calls:
+            if h[0] == 'reset':
+                self.calls = 0
+                continue
+            c = self.lookup(env, h[1])
+            try:
+                outs.append(dump(self.call_user(c, [], 0)))
+            except Violation as v:
+                outs.append('!viol ' + v.kind)
+        return {'outcome': 'ok'}, outs
+
     def run(self, decls):
         """returns dict(outcome, vals{name: dump}, out[list], calls, max_depth, max_rec)"""
         sys.setrecursionlimit(100000)
